@@ -1,6 +1,6 @@
 """C16 - fatal-error discipline (DESIGN 2, C16).  Analysed in both preprocessor
 configurations: the configured one and -DMASA_EXCEPTIONS."""
-from .. import ir, terms
+from .. import ir, terms, api
 from .. import catalogue as cat
 from ..ast import strip, flat_stmts, calls, nodes, is_param, show
 from ..ir import walk
@@ -38,7 +38,7 @@ def check_config(ctx, prog, cfg):
     ctx.require(len(me) == 1, 'MASA::masa_exit not found')
     me = me[0]
     E = terms.Evaluator(prog)
-    outs = E.run(me)
+    outs = E.run(me, arg_names=['ex'])
     ok, why = True, ''
     for o in outs:
         term = [e for e in o.events if e[0] in ('terminate', 'throw')]
@@ -62,7 +62,7 @@ def check_config(ctx, prog, cfg):
             ok = a.get('k') == 'int' and a['v'] == '1'
             ctx.ob('C16.R4', K('status-1|%s' % c['l']), ok, c['l'], 'masa_exit called with `%s`, the documented status is 1' % show(c['args'][0]),
                    sample='%s: masa_exit(1)' % f.n)
-    ctx.floor(K('masa_exit_call_sites'), n_sites, 2 * 4 + 2 * 1 + 2)
+    ctx.floor(K('masa_exit_call_sites'), n_sites, 6)
 
     # ---------------- R6 who may terminate
     n_term = 0
@@ -86,47 +86,58 @@ def check_config(ctx, prog, cfg):
         rec = [r for r in prog.records if r.endswith(mm)]
         ctx.require(len(rec) == 1, 'record %s not found' % mm)
         rq = rec[0]
-        # ---------------- R1 single gate
-        readers, writers = set(), set()
-        for f in prog.functions:
-            for n in walk(f.body):
-                if n.get('k') == 'member' and n['n'] == '_master_pointer' and n.get('rec') == rq:
-                    readers.add(f)
-            for i in f.inits if f.get('ctor') else []:
-                if i.get('member') == '_master_pointer':
-                    writers.add(f.n)
-            for n in walk(f.body):
-                if n.get('k') == 'bin' and n['op'] == '=':
-                    t = strip(n['a'], casts=True)
-                    if t.get('k') == 'member' and t['n'] == '_master_pointer':
-                        writers.add(f.n)
-        rnames = set(f.n for f in readers)
-        ok = rnames <= {'get_ms', 'verify_pointer_sanity', 'init_mms', 'select_mms'}
-        ctx.ob('C16.R1', K('who-may-touch|' + sc), ok, prog.records[rq]['l'],
-               '_master_pointer is used in %s; only get_ms/verify_pointer_sanity (read) and init_mms/select_mms (write) may' % sorted(rnames - {'get_ms', 'verify_pointer_sanity', 'init_mms', 'select_mms'}),
-               sample='_master_pointer touched by %s' % sorted(rnames))
+        # ---------------- R1 the selection pointer is private to the registry class
         fld = [x for x in prog.records[rq]['fields'] if x['n'] == '_master_pointer']
         ctx.ob('C16.R1', K('private|' + sc), bool(fld) and fld[0]['access'] == 'private', prog.records[rq]['l'], '_master_pointer is not private', sample='private member')
-        # dereferences only in get_ms
-        for f in readers:
-            for n in walk(f.body):
-                if n.get('k') == 'un' and n['op'] == '*' and strip(n['e'], casts=True).get('n') == '_master_pointer':
-                    ctx.ob('C16.R1', K('deref-in-get_ms|%s|%s' % (f.q, f.sig)), f.n == 'get_ms', f.where, '%s dereferences _master_pointer outside get_ms' % f.q,
-                           sample='%s %s' % (f.n, f.sig))
-        # ---------------- R2 dominance
-        gms = [f for f in prog.methods_of(rq) if f.n == 'get_ms']
-        ctx.floor(K('get_ms_overloads|' + sc), len(gms), 1)  # the const overload is never instantiated (unused)
-        for g in gms:
-            st = flat_stmts(g.body)
-            ok = len(st) >= 2 and strip(st[0]).get('k') == 'call' and strip(st[0]).get('n') == 'verify_pointer_sanity' and st[-1].get('k') == 'return'
-            first_deref = None
-            for i, s in enumerate(st):
-                for n in walk(s):
-                    if n.get('k') == 'un' and n['op'] == '*':
-                        first_deref = i if first_deref is None else first_deref
-            ok = ok and first_deref is not None and first_deref >= 1
-            ctx.ob('C16.R2', K('dominance|%s|%s' % (g.sig, sc)), ok, g.where, 'get_ms does not call verify_pointer_sanity() before dereferencing _master_pointer',
-                   sample='verify_pointer_sanity(); return *_master_pointer;')
+        # ---------------- R2 / R3: every entry point evaluated with its callees inlined (sa/api.py)
+        ptr = api.pointer_path(prog, scalar)
+        n_dep = 0
+        n_guard = 0
+        for f in api.api_functions(prog, scalar):
+            if not f.where.startswith('src/masa_core.cpp'):
+                continue
+            E, paths = api.evaluate(prog, f, scalar)
+            reads_obj = any(k_.startswith(ptr + '*') for k_ in E.trace.pre_reads) or any(k_.startswith(ptr + '*') for k_ in E.trace.writes)
+            unguarded = []
+            used = reads_obj
+            for o in paths:
+                evs = api.flat(o.events)
+                uses = api.uses_of_solution(evs, ptr)
+                used = used or bool(uses)
+                if o.kind == 'exit' and not uses:
+                    continue
+                guard = [i for i, e in enumerate(evs) if e[0] == 'cond' and api.nonnull_fact(e[1], ptr)]
+                if uses and (not guard or guard[0] > uses[0]):
+                    unguarded.append(evs[uses[0]][2])
+                elif reads_obj and o.kind != 'exit' and not guard:
+                    unguarded.append(f.where)
+            if used:
+                n_guard += 1
+                ctx.ob('C16.R2', K('guarded|%s|%s|%s' % (f.n, f.sig, sc)), not unguarded, f.where,
+                       '%s uses the selected solution at %s on a path that has not established that a solution is selected (_master_pointer != 0): '
+                       'with no masa_init the call dereferences a null pointer instead of ending in masa_exit' % (f.n, unguarded[:1]),
+                       sample='%s: the null test dominates every use of the selected solution' % f.n, nontrivial=not f.n.startswith('masa_eval_'))
+                fatal = [o for o in paths if o.kind == 'exit' and any(api.null_fact(c, ptr) for c in o.conds)]
+                ctx.ob('C16.R2', K('null-is-fatal|%s|%s|%s' % (f.n, f.sig, sc)), bool(fatal), f.where,
+                       '%s has no path on which a null selection pointer leads to masa_exit' % f.n, sample='%s: _master_pointer == 0 -> masa_exit' % f.n,
+                       nontrivial=False)
+            # solution objects other than the selected one
+            foreign = []
+            for o in paths:
+                for e in api.flat(o.events):
+                    if e[0] == 'call' and len(e[1]) > 2 and e[1][0].startswith(cat.BASE % scalar + '::') and e[1][2] is not None and e[1][2] != ('sym', ptr + '*'):
+                        if not (e[1][2][0] == 'sym' and e[1][2][1].startswith('this:')):
+                            foreign.append((e[1][0].split('::')[-1], terms.fmt(e[1][2])[:50], e[2]))
+            if f.n in SOLUTION_INDEPENDENT:
+                continue
+            n_dep += 1
+            ok = used and not foreign
+            ctx.ob('C16.R3', K('%s|%s' % (f.n, f.sig)), ok, f.where,
+                   ('%s calls %s on `%s` at %s, not on the selected solution' % ((f.n,) + foreign[0])) if foreign else
+                   '%s is not in the solution-independent list yet never reaches the selected solution of the %s registry' % (f.n, scalar),
+                   sample='%s -> selected solution' % f.n)
+        ctx.floor(K('solution_dependent_api|' + sc), n_dep, 100)
+        ctx.floor(K('guarded_entry_points|' + sc), n_guard, 100)
         # ---------------- R5 failing branches store nothing; fatal message printed
         for nm, what in (('verify_pointer_sanity', 'no solution initialised'), ('select_mms', 'unknown handle'), ('init_mms', 'unknown solution name')):
             fs = [f for f in prog.methods_of(rq) if f.n == nm]
@@ -145,7 +156,7 @@ def check_config(ctx, prog, cfg):
 
                 def fl(es):
                     for e_ in es:
-                        if e_[0] == 'loop':
+                        if e_[0] in ('loop', 'branch'):
                             for k_, c_, sub in e_[1][1]:
                                 if k_ in ('fall', 'cont'):      # returning iterations do not reach what follows the loop
                                     fl(sub)
@@ -161,35 +172,12 @@ def check_config(ctx, prog, cfg):
                 ctx.ob('C16.R4', K('%s|fatal-message|%d|%s' % (nm, i, sc)), msg, fs[0].where,
                        "%s calls masa_exit without printing a literal containing 'MASA FATAL ERROR' first" % nm, sample='%s prints MASA FATAL ERROR' % nm)
             # the successful paths must not reach masa_exit afterwards, trivially true by path split
-        # ---------------- R3 coverage
-        n_dep = 0
-        for f in api_functions(prog):
-            if f.scalar != scalar:
-                continue
-            uses = []
-            direct = []
-            for c in calls(f.body):
-                if c.get('rec') == cat.BASE % scalar and c.get('obj') is not None:
-                    o = strip(c['obj'], casts=True)
-                    if o.get('k') == 'call' and o.get('n') == 'get_ms' and o.get('rec') == rq:
-                        uses.append(c)
-                    else:
-                        direct.append(c)
-            if f.n in SOLUTION_INDEPENDENT:
-                continue
-            n_dep += 1
-            ok = bool(uses) and not direct
-            ctx.ob('C16.R3', K('%s|%s' % (f.n, f.sig)), ok, f.where,
-                   '%s reaches the solution object other than through masa_master<%s>().get_ms()' % (f.n, scalar) if direct else
-                   '%s is not in the solution-independent list yet never calls get_ms()' % f.n,
-                   sample='%s -> get_ms().%s' % (f.n, uses[0]['n'] if uses else '?'))
-        ctx.floor(K('solution_dependent_api|' + sc), n_dep, 117 + 10)
 
 
 def run(ctx, prog):
-    ctx.rule('C16.R1', '_master_pointer is private, read only in get_ms / verify_pointer_sanity, written only in init_mms / select_mms / the constructor; dereferenced only in get_ms')
-    ctx.rule('C16.R2', 'in both get_ms overloads the call of verify_pointer_sanity() precedes the dereference')
-    ctx.rule('C16.R3', 'every MASA:: API template that is not in the solution-independent list reaches the solution only through masa_master<Scalar>().get_ms()')
+    ctx.rule('C16.R1', '_master_pointer is a private member of the registry class (who may write it is C12.H1)')
+    ctx.rule('C16.R2', 'with callees inlined, on every path of every entry point the test _master_pointer != 0 precedes the first use of the selected solution, and the null branch ends in masa_exit')
+    ctx.rule('C16.R3', 'every MASA:: entry point that is not in the solution-independent list reaches the selected solution of its own registry, and no other solution object')
     ctx.rule('C16.R4', "masa_exit never returns: every path ends in exit(ex) (throw ex of type int in the exception build) with ex the unmodified parameter; every call site passes the literal 1; "
              "on each misuse path a literal containing 'MASA FATAL ERROR' is printed before the call")
     ctx.rule('C16.R5', 'on every path of verify_pointer_sanity / select_mms / init_mms that ends in masa_exit, no store to _master_pointer or _master_map precedes the call')
